@@ -783,7 +783,7 @@ def weave_file(srcdir, fcon, out_map, problems):
             meta = {'kind': 'fn', 'fn': fc.path, 'file': fcon.relpath, 'orig_line': orig_line,
                     'orig_sha': hashlib.sha256(text[it.start:it.end].encode()).hexdigest()[:16],
                     'contract': '%s:%d' % (os.path.relpath(fc.src, os.path.dirname(os.path.dirname(os.path.abspath(__file__)))), fc.lineno),
-                    'tags': sorted({x for (_, t, _) in fc.clauses if t for x in t.split(',')} | set(fcon.props)),
+                    'tags': sorted({x for (_, t, _) in fc.clauses if t for x in t.split()[0].split(',')} | set(fcon.props)),
                     'woven_name': fc.copy_as or name, 'assumed': fc.external_body, **rep}
             if rep['leftovers']:
                 problems.append({'kind': 'unsupported', 'fn': fc.path, 'file': fcon.relpath,
